@@ -69,6 +69,7 @@ static ACTIVE: AtomicBool = AtomicBool::new(false);
 static MONITOR: RwLock<Option<Arc<dyn Monitor>>> = RwLock::new(None);
 static FORCE_SYNC_IO: AtomicBool = AtomicBool::new(false);
 static CLOCK_OFFSET_NS: AtomicU64 = AtomicU64::new(0);
+static FROZEN_NOW_NS: AtomicU64 = AtomicU64::new(0);
 
 thread_local! {
     static THREAD_NOW: Cell<u64> = const { Cell::new(0) };
@@ -185,12 +186,22 @@ pub fn wall_now_ns() -> Option<u64> {
     Some(now_ns(real))
 }
 
+/// Freeze the time every thread without an override of its own sees at
+/// `now_ns` (0 lets it run again: real time plus the offset).
+pub fn set_frozen_now_ns(now_ns: u64) {
+    FROZEN_NOW_NS.store(now_ns, Ordering::Release);
+}
+
 /// The time the store should use given the real wall time `real_ns`.
 #[inline]
 pub fn now_ns(real_ns: u64) -> u64 {
     let thread_now = THREAD_NOW.with(|cell| cell.get());
     if thread_now != 0 {
         return thread_now;
+    }
+    let frozen = FROZEN_NOW_NS.load(Ordering::Acquire);
+    if frozen != 0 {
+        return frozen;
     }
     real_ns.saturating_add(CLOCK_OFFSET_NS.load(Ordering::Acquire))
 }
